@@ -15,6 +15,7 @@ Every scenario runs in its own driver process (descriptor table and thread-id co
 import os, shutil
 from vlib import env, e2e, wasm, wasih, san
 from vlib.wasih import WASI_NUM
+from vlib.wasm import Module, I32, I64, F32, F64
 
 LEVEL = 'exploration'
 RULE = ('one scenario per driver process; evaluation = one checked service call (or one spawned thread); distinct = distinct (service, '
@@ -291,6 +292,111 @@ def spawn_scenario(k, plan, exe, root, tag, envx=None):
     return res, [('thread-spawn', tag, S, K)], S * K
 
 
+MARK_START = 0x57A27
+DECOY_NAMES = ['wasi_thread_star', 'wasi_thread_start2', 'xwasi_thread_start', 'wasi_thread_start_', 'WASI_THREAD_START', 'wasi-thread-start', 'e%d', 'start']
+
+
+def multi_module_build(w2c2, root, si):
+    """Three modules for one process (ma, mb, mc; -m): wasi_thread_start sits at different export positions in ma and mb and is
+    missing in mc; all other (i32,i32)->() exports are decoys with similar names."""
+    r = env.rng('c15-multi', si)
+    d = os.path.join(root, 'multi%d' % si)
+    os.makedirs(d)
+    srcs = []
+    shapes = {}
+    nexp = {x: r.randint(2, 7) for x in 'abc'}
+    pos = {'a': r.randrange(nexp['a']), 'c': None}
+    pos['b'] = r.choice([p for p in range(nexp['b']) if p != pos['a']] or [0])
+    if r.random() < 0.5:
+        nexp['c'] = max(nexp['c'], max(pos['a'], pos['b']) + 1)  # the position that holds the start function elsewhere exists in mc too
+    for x in 'abc':
+        m = Module()
+        spawn = m.import_func('wasi', 'thread-spawn', [I32], [I32])
+        m.mems.append((1, 1, True))
+        used = set()
+        entries = []
+        for i in range(nexp[x]):
+            if pos[x] == i:
+                nm, marker = 'wasi_thread_start', MARK_START
+            else:
+                nm = r.choice(DECOY_NAMES)
+                nm = nm % i if '%d' in nm else nm
+                while nm in used:
+                    nm += 'x'
+                marker = 0xDEC000 + i
+            used.add(nm)
+            body = [('i32.const', wasih.LOGCNT), ('i32.const', 1), ('i32.atomic.rmw.add', 2, 0), ('i32.const', 12), ('i32.mul',), ('local.set', 2),
+                    ('local.get', 2), ('i32.const', marker), ('i32.atomic.store', 2, wasih.LOGBASE),
+                    ('local.get', 2), ('local.get', 0), ('i32.atomic.store', 2, wasih.LOGBASE + 4),
+                    ('local.get', 2), ('local.get', 1), ('i32.atomic.store', 2, wasih.LOGBASE + 8)]
+            entries.append((nm, body))
+        where_spawn = r.randrange(len(entries) + 1)
+        where_mem = r.randrange(len(entries) + 1)
+        for i, (nm, body) in enumerate(entries):
+            if i == where_spawn:
+                m.add_func([I32], [I32], [], [('local.get', 0), ('call', spawn)], export='spawn')
+            if i == where_mem:
+                m.exports.append(('memory', 'memory', 0))
+            m.add_func([I32, I32], [], [(1, I32)], body, export=nm)
+        if where_spawn == len(entries):
+            m.add_func([I32], [I32], [], [('local.get', 0), ('call', spawn)], export='spawn')
+        if where_mem == len(entries):
+            m.exports.append(('memory', 'memory', 0))
+        b = m.encode()
+        t = e2e.translate(w2c2, b, d, 'm' + x, ['-m'])
+        if t.rc != 0:
+            raise env.HarnessError('multi-module spawn: translation failed: %s' % t.err[-400:])
+        srcs.append(os.path.join(d, 'm%s.c' % x))
+        shapes[x] = dict(pos=pos[x], exports=[e[0] for e in entries], wasm=b)
+    exe = os.path.join(d, 'spawn_multi')
+    futex = [os.path.join(env.REPO, 'futex', f) for f in ('futex.c', 'list.c', 'map.c')]
+    rr = env.run(['gcc'] + SAN + ['-w'] + env.WASI_DEFS + ['-DWASM_THREADS_PTHREADS', '-I', e2e.base_include(), '-I', os.path.join(env.REPO, 'wasi'),
+                 '-I', os.path.join(env.REPO, 'futex'), '-I', d] + srcs + [os.path.join(env.VERIF, 'harness', 'spawn_multi.c'), os.path.join(env.REPO, 'wasi', 'wasi.c')] + futex +
+                 ['-o', exe, '-lpthread', '-lm'], cwd=d, timeout=600)
+    if rr.rc != 0:
+        return None, shapes, rr.err[-2500:]
+    return exe, shapes, ''
+
+
+def multi_module_scenario(si, k, exe, shapes):
+    r = env.rng('c15-multi-seq', si, k)
+    seq = [(r.choice('abc'), r.randint(1, 1 << 30)) for _ in range(r.randint(2, 7))]
+    if k % 3 == 0:
+        seq = [(r.choice('ab'), r.randint(1, 99))] + seq  # a module WITH the start export goes first
+    rr = env.run([exe] + ['%s:%d' % (mm, a) for mm, a in seq], env=env.SAN_ENV, timeout=120)
+    files = {'cmd.txt': 'spawn_multi ' + ' '.join('%s:%d' % x for x in seq), 'shapes.txt': repr({x: (v['pos'], v['exports']) for x, v in shapes.items()}),
+             'stdout.txt': rr.out[-4000:], 'stderr.txt': rr.err[-4000:], 'ma.wasm': shapes['a']['wasm'], 'mb.wasm': shapes['b']['wasm'], 'mc.wasm': shapes['c']['wasm']}
+    res = []
+    reps = san.parse(rr.err)
+    if reps:
+        res.append(('C15:thread-spawn:multi-module:' + reps[0][0], 'several modules in one process: %s' % reps[0][1], files))
+        return res, [('thread-spawn', 'multi-module')], len(seq)
+    if rr.rc != 0 or 'DONE' not in rr.out:
+        res.append(('C15:thread-spawn:multi-module:crash', 'several modules in one process: rc %s %s' % (rr.rc, rr.err[-300:]), files))
+        return res, [('thread-spawn', 'multi-module')], len(seq)
+    S = [l.split() for l in rr.out.splitlines() if l.startswith('S ')]
+    L = [l.split() for l in rr.out.splitlines() if l.startswith('L ')]
+    want_log = []
+    ids = []
+    for (mm, a), s_ in zip(seq, S):
+        ret = int(s_[3])
+        if shapes[mm]['pos'] is None:
+            if ret >= 0:
+                res.append(('C15:thread-spawn:multi-module:missing-export', 'thread-spawn on module m%s (no wasi_thread_start; other modules in the process have one) returned %d, expected a negative value' % (mm, ret), files))
+        else:
+            if ret <= 0:
+                res.append(('C15:thread-spawn:multi-module:negative-id', 'thread-spawn on module m%s returned %d' % (mm, ret), files))
+            else:
+                ids.append(ret)
+                want_log.append((mm, str(MARK_START), str(ret), str(a)))
+    if len(set(ids)) != len(ids):
+        res.append(('C15:thread-spawn:multi-module:duplicate-id', 'thread ids not pairwise distinct across modules: %s' % ids, files))
+    got = sorted((l[1], l[2], l[3], l[4]) for l in L)
+    if got != sorted(want_log):
+        res.append(('C15:thread-spawn:multi-module:exactly-once', 'entries logged by the modules\' start/decoy functions %s differ from the expected one wasi_thread_start run per successful spawn %s' % (got[:8], sorted(want_log)[:8]), files))
+    return res, [('thread-spawn', 'multi-module', tuple(sorted(set(mm for mm, _ in seq))))], len(seq)
+
+
 def main(chk):
     quick = chk.tier == 'quick'
     w2c2 = env.build_translator('plain')
@@ -330,6 +436,14 @@ def main(chk):
             res.append(('C15:thread-spawn:missing-export', 'thread-spawn on a module without wasi_thread_start returned %s, expected a negative value' % v, {'script.txt': g.script()}))
         return res, [('thread-spawn', 'no-export')], 1
     jobs.append(no_export)
+    # several modules in one process
+    for si in range(3 if quick else 20):
+        mexe, shapes, err = multi_module_build(w2c2, root, si)
+        if mexe is None:
+            chk.violation('C15:thread-spawn:multi-module:build', 'three -m modules + wasi.c do not build: %s' % err, {})
+            continue
+        for k in range(12 if quick else 60):
+            jobs.append(lambda si=si, k=k, mexe=mexe, shapes=shapes: multi_module_scenario(si, k, mexe, shapes))
 
     for res, classes, n in env.pmap(lambda j: j(), jobs):
         chk.ev(n)
